@@ -1,1 +1,1 @@
-From LogosV Require Export Properties.C01 Properties.C02 Properties.C03 Properties.C05 Properties.C06 Properties.C07 Properties.C13 Properties.C15 Properties.C20.
+From LogosV Require Export Properties.C01 Properties.C02 Properties.C03 Properties.C04 Properties.C05 Properties.C06 Properties.C07 Properties.C12 Properties.C13 Properties.C15 Properties.C20.
